@@ -55,6 +55,13 @@ class Body:
         self._dom = None
         self._defs = None
         self._reach0 = None
+        # captured variables: closure field index -> source name
+        self.upvar_names = {}
+        for u in js.get("upvars", []):
+            for e in u["place"]["p"]:
+                if isinstance(e, dict) and "f" in e and e.get("a", "").startswith("closure:"):
+                    self.upvar_names[e["f"]] = u["name"]
+                    break
 
     # ------------------------------------------------------------ basics
     def local_name(self, l):
@@ -268,7 +275,10 @@ class Body:
             return k.get("val", "const") if k else "?"
         l = pl["l"]
         nm = self.local_name(l)
-        fields = "".join("." + e["f"] for e in pl["p"] if isinstance(e, dict) and "f" in e)
+        fields = "".join("." + (self.upvar_names.get(e["f"], e["f"]) if e.get("a", "").startswith("closure:") else e["f"])
+                         for e in pl["p"] if isinstance(e, dict) and "f" in e)
+        if fields and l == 1 and not nm and pl["p"] and any(isinstance(e, dict) and e.get("a", "").startswith("closure:") for e in pl["p"]):
+            return fields.lstrip(".")  # captured variable of a closure / async block: show its name
         if nm:
             return nm + fields
         d = self.single_def(l)
